@@ -168,10 +168,28 @@ fn run(dict: &Dict, mode: Mode, s: Option<InfoSubset>, order: u8, text: &str) ->
         }
         tok.set_mode(mode);
     }
+    let mut list = MorphemeList::empty(dict.clone());
     tok.reset().push_str(text);
     tok.do_tokenize().map_err(|e| classify_err(&e))?;
-    let mut list = MorphemeList::empty(dict.clone());
     list.collect_results(&mut tok).map_err(|e| classify_err(&e))?;
+    Ok(toks_of(&list))
+}
+
+/// order 3: the field request is made first, a result is collected into the list that is used
+/// throughout, then the mode is set and the text is analysed twice into that same list
+fn run_with_reused_list(dict: &Dict, mode: Mode, s: InfoSubset, text: &str) -> Result<Vec<Tok>, AErr> {
+    let mut tok = StatefulTokenizer::new(dict.clone(), Mode::C);
+    let mut list = MorphemeList::empty(dict.clone());
+    tok.set_subset(s);
+    tok.reset().push_str("京");
+    tok.do_tokenize().map_err(|e| classify_err(&e))?;
+    list.collect_results(&mut tok).map_err(|e| classify_err(&e))?;
+    tok.set_mode(mode);
+    for _ in 0..2 {
+        tok.reset().push_str(text);
+        tok.do_tokenize().map_err(|e| classify_err(&e))?;
+        list.collect_results(&mut tok).map_err(|e| classify_err(&e))?;
+    }
     Ok(toks_of(&list))
 }
 
@@ -240,10 +258,10 @@ impl Space for SubsetTexts {
             };
             for &bits in &self.subsets {
                 let s = InfoSubset::from_bits_truncate(bits);
-                for order in [0u8, 1, 2] {
+                for order in [0u8, 1, 2, 3] {
                     o.evaluations += 1;
-                    let ctx = format!("[{} mode {} subset {:?} {}] {:?}", self.world.name(), mode_name(mode), s, ["set_mode then set_subset", "set_subset then set_mode", "set_subset, then the mode reached through another mode"][order as usize], text);
-                    match catch(|| run(dict, mode, Some(s), order, &text)) {
+                    let ctx = format!("[{} mode {} subset {:?} {}] {:?}", self.world.name(), mode_name(mode), s, ["set_mode then set_subset", "set_subset then set_mode", "set_subset, then the mode reached through another mode", "set_subset, a collected analysis, set_mode, second analysis into the same list"][order as usize], text);
+                    match catch(|| if order == 3 { run_with_reused_list(dict, mode, s, &text) } else { run(dict, mode, Some(s), order, &text) }) {
                         Err(p) => o.fail(Failure::panic(&ctx, &p)),
                         Ok(Err(e)) => o.fail(Failure::new("error-with-subset", format!("{}: {:?}", ctx, e))),
                         Ok(Ok(t)) => {
@@ -295,7 +313,7 @@ pub fn c11_spec(name: &str, rewrite: bool) -> WorldSpec {
 
 pub fn main(tier: Tier, replay: Option<String>) -> i32 {
     let mut rep = Report::new("C11", "model_checking", tier);
-    rep.rule = "part 1: every word of a world with two user dictionaries (with / without synonym ids, elided and non-elided forms, own and foreign dictionary forms, strings across the one-byte/two-byte length prefix) x all 1024 field subsets, through LexiconSet::get_word_info_subset(normalize()) and through a tokenizer after set_subset; part 2: every text within the bound x all 1024 subsets x modes A/B/C x three orders (set_mode then set_subset, the reverse, and the mode reached through another mode after set_subset); requested fields must equal the all-fields values, surfaces must partition the input, tokens must equal the full analysis when no path-rewrite plugin is configured or the subset covers surface, POS and normalised form; non-trivial = a proper subset was requested".into();
+    rep.rule = "part 1: every word of a world with two user dictionaries (with / without synonym ids, elided and non-elided forms, own and foreign dictionary forms, strings across the one-byte/two-byte length prefix) x all 1024 field subsets, through LexiconSet::get_word_info_subset(normalize()) and through a tokenizer after set_subset; part 2: every text within the bound x all 1024 subsets x modes A/B/C x four call orders (set_mode then set_subset, the reverse, the mode reached through another mode after set_subset, and a reused result list with an analysis between set_subset and set_mode); requested fields must equal the all-fields values, surfaces must partition the input, tokens must equal the full analysis when no path-rewrite plugin is configured or the subset covers surface, POS and normalised form; non-trivial = a proper subset was requested".into();
     rep.assumptions = vec!["at the raw lexicon API the request is closed with InfoSubset::normalize() first (the documented closure)".into()];
     let mut jobs: Vec<Box<dyn AnyJob>> = Vec::new();
     // The worlds are valid input that builds on a correct tree.  Building the user dictionaries
@@ -322,7 +340,7 @@ pub fn main(tier: Tier, replay: Option<String>) -> i32 {
     let all: Vec<u32> = (0..1024).collect();
     for (w, has_rewrite) in [(w_plain, false), (w_rw, true)] {
         let bounds = tier.pick(TreeBounds { full_len: 1, ext_len: 2, max_special: 0 }, TreeBounds { full_len: 2, ext_len: 3, max_special: 1 });
-        let b = json!({"tree": bounds.to_json(), "subsets": 1024, "modes": 3, "orders": 3});
+        let b = json!({"tree": bounds.to_json(), "subsets": 1024, "modes": 3, "orders": 4});
         jobs.push(job(SubsetTexts { world: w, has_rewrite, alpha: alpha.clone(), bounds, subsets: all.clone() }, Strategy::Dfs, Some(tier.pick(60, 3000)), b));
     }
     drive(rep, jobs, replay)
